@@ -1,6 +1,7 @@
-"""C15 — every simulator survives every opcode from every state, deterministically (MSP430 modelled; others explored)."""
+"""C15 — every simulator survives every opcode from every state, deterministically (MSP430, tms1000, 8008, lc3, 6502, 1802, tms9900, ebpf modelled;
+others explored)."""
 import os, re
-import nvlib, gen_msp430 as G, msp430_ref as R
+import nvlib, gen_msp430 as G, msp430_ref as R, gen_simx
 
 ID = "C15"
 LEAN_MODULES = ["NakenVerif.Props.C15"]
@@ -14,7 +15,24 @@ THEOREMS = [
     "NakenVerif.C15.pc_advance",
     "NakenVerif.C15.arch_pc_advance",
     "NakenVerif.Msp430.SimProofs.disLen_core",
+    # further simulators (Props/C15Sim.lean)
+    "NakenVerif.C15.tms1000_step_total_no_fault", "NakenVerif.C15.tms1000_invariant_established",
+    "NakenVerif.C15.tms1000_run_no_fault", "NakenVerif.C15.tms1000_no_hidden_input",
+    "NakenVerif.C15.tms1000_no_memory_write", "NakenVerif.C15.tms1000_pc_after_non_branching",
+    "NakenVerif.C15.i8008_step_total_no_fault", "NakenVerif.C15.i8008_invariant_established",
+    "NakenVerif.C15.i8008_run_no_fault", "NakenVerif.C15.i8008_no_hidden_input",
+    "NakenVerif.C15.lc3_step_total_no_fault", "NakenVerif.C15.lc3_run_no_fault", "NakenVerif.C15.lc3_set_reg_no_fault",
+    "NakenVerif.C15.lc3_stop_running_is_an_input",
+    "NakenVerif.C15.m6502_step_total_no_fault", "NakenVerif.C15.m6502_invariant_established", "NakenVerif.C15.m6502_run_no_fault",
+    "NakenVerif.C15.m6502_pc_after_non_branching", "NakenVerif.C15.m6502_stop_running_is_an_input",
+    "NakenVerif.C15.c1802_step_total_no_fault", "NakenVerif.C15.c1802_invariant_established", "NakenVerif.C15.c1802_run_no_fault",
+    "NakenVerif.C15.c1802_stop_running_is_an_input",
+    "NakenVerif.C15.tms9900_step_total", "NakenVerif.C15.ebpf_step_total", "NakenVerif.C15.ebpf_set_reg_no_fault",
 ]
+REG_NAME_PROBES = ["nosuchreg", "r", "r8", "r9", "r15", "r16", "r31", "r32", "r64", "r99", "r100", "r:", "rz", "r/", "R8", "x8",
+                   "x31", "x32", "x99", "$0", "$31", "$32", "$99", "a0", "d8", "f32", "sp", "pc", "r-1", "w8", "r4294967296", "x4294967327", "r00000000008", "$-1", "x-1"]
+STOP_CLEARED = ["tms1000", "8008"]          # run() starts with stop_running = false (f100_l too: not modelled yet)
+SIMX_MODELLED = ["tms1000", "8008", "lc3", "6502", "1802", "tms9900", "ebpf"]   # simulators with a Lean step model tied by the `simx` stream
 SIMULATORS = {   # cpu_list name -> register names accepted by its set_reg (a few), value mask
     "msp430": (["r4", "r5", "sp", "sr"], 0xffff), "1802": (["r0", "r1", "d"], 0xffff), "6502": (["a", "x", "y", "sp"], 0xff),
     "65816": (["a", "x", "y", "sp"], 0xffff), "8008": (["a", "b", "c"], 0xff), "avr8": (["r0", "r16", "r30"], 0xff),
@@ -23,15 +41,33 @@ SIMULATORS = {   # cpu_list name -> register names accepted by its set_reg (a fe
     "tms1000": (["a", "x", "y"], 0xffff), "tms9900": (["r0", "r1"], 0xffff), "z80": (["a", "b", "hl", "sp"], 0xffff),
 }
 RULE = ("msp430: the C14 `sim` stream (stratified over all opcode strata; all 65,536 first words in the thorough tier) run "
-        "twice in separate processes; simstep: for each of the 15 simulators, first opcode byte exhaustive (0..255, then 256 "
-        "word patterns) then random, x random memory and register values set through set_reg, one step in two fresh objects; "
-        "distinct = distinct lines; non-trivial = the step executed (return value 0).")
-MODELLED = "SimulateMsp430 (step, determinism, register-index safety, write set); disasm_msp430 length (table-driven model, exhaustive)"
-NOT_MODELLED = ("explored only by the sanitised two-run sweep, no model and no proof: 1802, 6502, 65816, 8008, avr8, ebpf, f100_l, "
-                "lc3, mips, riscv, stm8, tms1000, tms9900, z80")
+        "twice in separate processes; simx (tms1000, 8008, lc3, 6502, 1802, tms9900, ebpf): COMPLETE simulator state (every data member, the static "
+        "stop_running, cycle_count, show) x first opcode byte exhaustive x sampled operands x boundary states (PC at the top of "
+        "memory, SP at both ends of its stack, index registers 0 / max, RAM cells 0 / max), model against the real object; "
+        "simstep: for each of the 15 simulators three fresh objects allocated from memory filled 0x00 / 0xff / 0x01 (uninitialised "
+        "members), first opcode byte exhaustive in both byte positions, all registers at edge values, MIPS / RISC-V words field by "
+        "field with every pair of {0, 1, -1, INT_MIN, INT_MAX} in the source registers, long runs of branches, 64- and 300-step "
+        "runs, 1 in 16 with the constructor's break_io (forked), set_reg name probes; distinct = distinct lines; non-trivial = the "
+        "step executed (return value 0).")
+MODELLED = ("SimulateMsp430 (step, determinism, register-index safety, write set); disasm_msp430 length (table-driven model, exhaustive); "
+            "SimulateTms1000, Simulate8008, SimulateLc3, Simulate6502, Simulate1802: one step of run(-1, 1) statement by statement over an explicit "
+            "state with every C array access checked (ram[64], reg[8], stack[8], reg_r[16], the regenerated tms1000_* tables, "
+            "table_6502_opcodes[256], disasm_6502 lengths[256]), reset / set_reg / set_pc / push, the static stop_running, "
+            "break_io exit (6502); PC advance against the disassembler (tms1000 LFSR tables, 6502 disasm_6502 length); SimulateTms9900 and "
+            "SimulateEbpf, which execute no instruction (tms9900: pc += 2, return 0 for a zero byte else -1; ebpf: 'CPU not supported')")
+NOT_MODELLED = ("explored only by the sanitised three-object sweep, no model and no proof: 65816, avr8, f100_l, mips, riscv, stm8, "
+                "z80.  In the modelled simulators: the display loop of "
+                "show == true beyond its table indices and lengths, serial devices (init_serial), break_point other than -1, the "
+                "auto-run loop (only msp430 has `simrun`), signed overflow of cycle_count after 2^31 cycles")
 ASSUMPTIONS = ["pc_advance is proved for defined, non-branching instructions on the length model disLen, which is validated "
                "against the real disasm_msp430 on all 65,536 first words on every run",
-               "writes_inside_address_space is proved for every state (after fixes 1402eee, d9b06ff)"]
+               "writes_inside_address_space is proved for every state (after fixes 1402eee, d9b06ff)",
+               "tms1000 / 8008 / 6502 safety is proved for states inside the invariant the simulator maintains (tms1000: nibble "
+               "ranges; 8008: sp < 8; 6502: A, X, Y, SP in 0..255), which reset establishes and set_reg / set_pc / push / the step "
+               "keep (proved); 1802: reg_p, reg_x < 16; lc3 needs no invariant",
+               "the 6502 disassembler length is the regenerated table of disasm_6502's return value for each of the 256 first "
+               "bytes (the translator calls the real function on every run)",
+               "the step models are tied to the real objects by the simx stream only (differential, sampled operands)"]
 TRUSTED_BASE = ["tools/msp430_ref.py length() (independent instruction-length function used by the pc_advance search)"]
 
 
@@ -55,8 +91,37 @@ def correspondence(ctx, corr):
             corr["disagreements"].append({"line": l, "impl": a, "model": b})
     corr["cases"] += len(dl)
     corr["streams"]["dislen"] = {"lines": len(dl), "exhaustive_first_words": 65536}
-    corr["distinct_nontrivial"] = len(set(lines))
+    # simx: complete-state single steps of the further modelled simulators, model against the real object
+    sx, sxinfo = simx_lines(ctx)
+    h3, d3 = ctx.both(sx)
+    ctx.notes["simx"] = (sx, h3)
+    for l, a, b in zip(sx, h3, d3):
+        if a != b:
+            corr["disagreements"].append({"line": l[:2000], "impl": a[:600], "model": b[:600]})
+    corr["cases"] += len(sx)
+    corr["streams"]["simx"] = sxinfo
+    corr["distinct_nontrivial"] = len(set(lines)) + len(set(sx))
     corr["samples"] = [{"line": lines[i][:300], "impl": h[i][:300], "model": d[i][:300]} for i in range(0, len(lines), max(1, len(lines) // 4))][:4]
+
+
+QUICK_K = 1          # the streams of this module are sized for a quick tier of about a minute
+
+
+def _sc(ctx, q, t):
+    """quick: q (times the boost of check.py when an anchored file changed, never above t); thorough: exactly t"""
+    return ctx.scale(q, t) if ctx.quick() else t
+
+
+def simx_lines(ctx):
+    """first opcode byte exhaustive x sampled operands x boundary states, per modelled simulator"""
+    lines, info = [], {}
+    per = _sc(ctx, 8, 48)
+    for cpu in SIMX_MODELLED:
+        ls, st = gen_simx.GENERATORS[cpu](ctx.rng, per)
+        st["lines"] = len(ls)
+        info[cpu] = st
+        lines += ls
+    return lines, info
 
 
 def _norm_crash(a):
@@ -69,9 +134,50 @@ def _norm_crash(a):
     return a[:60].replace(" ", "_")
 
 
+MIPS_REGS = ["$at", "$v0", "$v1", "$a0", "$a1", "$a2", "$a3", "$t0", "$t1", "$t2", "$t3", "$t4", "$t5", "$t6", "$t7", "$s0", "$s1",
+             "$s2", "$s3", "$s4", "$s5", "$s6", "$s7", "$t8", "$t9", "$k0", "$k1", "$gp", "$sp", "$fp", "$ra"]      # $1 .. $31
+# every register set_reg accepts (the sweep's `edge` stratum sets ALL of them), register width mask
+FULLREGS = {
+    "msp430": (["r%d" % i for i in range(4, 16)] + ["sp", "sr"], 0xffff),
+    "1802": (["r%d" % i for i in range(16)] + ["d", "df", "t", "q", "x", "p"], 0xffff),
+    "6502": (["a", "x", "y", "sp", "sr"], 0xff), "65816": (["a", "x", "y", "sp", "sr", "db", "pb"], 0xffff),
+    "8008": (["a", "b", "c", "d", "e", "h", "l", "sp"], 0xff), "avr8": (["r%d" % i for i in range(32)] + ["sp"], 0xffff),
+    "ebpf": (["r%d" % i for i in range(11)], 0xffffffff), "f100_l": (["a", "cr", "lsp"], 0xffff),
+    "lc3": (["r%d" % i for i in range(8)], 0xffff), "mips": (MIPS_REGS, 0xffffffff),
+    "riscv": (["x%d" % i for i in range(1, 32)], 0xffffffff), "stm8": (["a", "x", "y", "sp", "cc"], 0xffff),
+    "tms1000": (["a", "x", "y", "r", "o", "k"], 0xffff), "tms9900": (["r%d" % i for i in range(16)], 0xffff),
+    "z80": (["a", "f", "b", "c", "d", "e", "h", "l", "ix", "iy", "sp", "i", "r"], 0xffff),
+}
+EDGE_VALUES = [0, 1, 2, 0xff, 0xfe, 0x80, 0x7f, 0x100, 0x1ff, 0xffff, 0xfffe, 0x8000, 0x7fff, 0x10000, 0xffffffff, 0xfffffffe,
+               0x80000000, 0x7fffffff]
+ARITH5 = [0, 1, 0xffffffff, 0x80000000, 0x7fffffff]         # divisor 0 / -1, dividend INT_MIN ...
+# size of the simulated address space in bytes of the shared Memory image (None: 32 bits, or no data in Memory):
+# a non-zero cell at or above it that the case did not put there is a write outside the address space
+ADDRESS_SPACE = {"msp430": 0x10000, "1802": 0x10000, "6502": 0x10000, "65816": 0x1000000, "8008": 0x10000, "avr8": None, "ebpf": None,
+                 "f100_l": 0x20000, "lc3": 0x20000, "mips": None, "riscv": None, "stm8": 0x1000000, "tms1000": 0x800,
+                 "tms9900": 0x10000, "z80": 0x10000}
+BIG_ENDIAN = {"mips", "1802", "tms9900", "f100_l", "lc3"}
+
+
+def _mem_runs(rng, cpu, pc, blob):
+    """the instruction bytes at pc plus random bytes around 0, the 6502 stack page, and the top of 64 KiB (never at or
+    above the address-space limit)"""
+    lim = ADDRESS_SPACE.get(cpu) or 0x100000000
+    runs = ["%x:%s" % (pc, blob.hex())]
+    for a in (0x0, 0xf8, 0x1f8, 0xfff8, rng.choice([0x800, 0x8000, 0x7ff8, 0xff00])):
+        n = 16 if a != 0xfff8 else 8
+        if a + n <= lim and not (a <= pc < a + n) and not (a < pc + len(blob) <= a + n):
+            runs.append("%x:%s" % (a, bytes(rng.getrandbits(8) for _ in range(n)).hex()))
+    return ";".join(runs)
+
+
+def _word32(cpu, w):
+    return w.to_bytes(4, "big" if cpu in BIG_ENDIAN else "little")
+
+
 def sweep_lines(ctx):
     rng = ctx.rng
-    n = ctx.scale(400, 4000)
+    n = _sc(ctx, 400, 4000)
     lines = []
     for cpu in sorted(SIMULATORS):
         regs, mask = SIMULATORS[cpu]
@@ -87,9 +193,63 @@ def sweep_lines(ctx):
             rs = ",".join("%s=%x" % (r, rng.choice([0, 1, 0xff, 0xffff, 0x7fff, 0x8000, 0xffffffff, rng.getrandbits(16)]) & mask)
                           for r in regs)
             lines.append("simstep %s %x %s %s" % (cpu, pc, rs, ";".join(runs)))
-    # set_reg with a name the simulator does not know must be refused, not crash
+    # edge stratum: first opcode byte (both byte positions) exhaustive, EVERY register at an edge value (0, 1, 0x7f.., 0x80.., 0xff..,
+    # stack page ends, 64 KiB ends), PC at 0 / top of memory, operands random; the constructor's default break_io for 1 in 16
+    m = _sc(ctx, 2, 8)
     for cpu in sorted(SIMULATORS):
-        lines.append("simstep %s 0 nosuchreg=1 0:0000000000000000" % cpu)
+        regs, mask = FULLREGS[cpu]
+        for i in range(256 * m):
+            b0 = i & 255
+            pc = rng.choice([0, 0, 0xfff0, 0xfffe, 0xffff, 0x100, 0x8000])
+            blob = (bytes([b0]) if (i >> 8) & 1 == 0 or cpu in ("mips", "riscv") else bytes([rng.getrandbits(8), b0])) + \
+                bytes(rng.choice([0, 0xff, rng.getrandbits(8), rng.getrandbits(8)]) for _ in range(7))
+            if cpu in BIG_ENDIAN and cpu not in ("1802",) and (i >> 8) & 1 == 1:
+                blob = bytes([b0]) + blob[1:]
+            rs = ",".join("%s=%x" % (r, rng.choice(EDGE_VALUES) & mask) for r in regs)
+            lines.append("simstep %s %x %s %s%s" % (cpu, pc & 0xfffffffc if cpu in ("mips", "riscv") else pc, rs,
+                                                    _mem_runs(rng, cpu, pc & 0xfffffffc if cpu in ("mips", "riscv") else pc, blob),
+                                                    " default" if i % 16 == 7 else ""))
+    # 32-bit instruction words, field by field: MIPS op/funct exhaustive, RISC-V opcode x funct3 x funct7 in {0, 1, 0x20, random};
+    # the two source registers hold every pair of {0, 1, -1, INT_MIN, INT_MAX} (odd-numbered registers = A, even = B)
+    pairs = [(a, b) for a in ARITH5 for b in ARITH5]
+    for (a, b) in (pairs if not ctx.quick() else pairs[::2] + [(0x80000000, 0xffffffff), (1, 0)]):
+        rs_m = ",".join("%s=%x" % (r, a if k % 2 == 0 else b) for k, r in enumerate(MIPS_REGS))       # $1 = A, $2 = B, ...
+        rs_r = ",".join("x%d=%x" % (k, a if k % 2 == 1 else b) for k in range(1, 32))
+        for funct in range(64):
+            for op, rd in ((0, 0), (0, 3), (0x1c, 3)):           # div/mult have rd = 0
+                w = (op << 26) | (1 << 21) | (2 << 16) | (rd << 11) | funct
+                lines.append("simstep mips 1000 %s 1000:%s" % (rs_m, (_word32("mips", w) + bytes(8)).hex()))
+        for f7 in (0, 1, 0x20, rng.getrandbits(7)):
+            for f3 in range(8):
+                for opc in (0x33, 0x3b, 0x13, 0x1b):
+                    w = (f7 << 25) | (2 << 20) | (1 << 15) | (f3 << 12) | (3 << 7) | opc
+                    lines.append("simstep riscv 1000 %s 1000:%s" % (rs_r, (_word32("riscv", w) + bytes(8)).hex()))
+    for op in range(64):
+        for k in range(_sc(ctx, 2, 8)):
+            w = (op << 26) | rng.getrandbits(26)
+            rs_m = ",".join("%s=%x" % (r, rng.choice(EDGE_VALUES)) for r in MIPS_REGS)
+            lines.append("simstep mips 1000 %s 1000:%s" % (rs_m, (_word32("mips", w) + _word32("mips", rng.getrandbits(32)) * 2).hex()))
+    for opc in range(128):
+        for f3 in range(8):
+            w = (rng.getrandbits(17) << 15) | (f3 << 12) | (rng.getrandbits(5) << 7) | opc
+            rs_r = ",".join("x%d=%x" % (k, rng.choice(EDGE_VALUES)) for k in range(1, 32))
+            lines.append("simstep riscv 1000 %s 1000:%s" % (rs_r, (_word32("riscv", w) + bytes(8)).hex()))
+    # a long run of branches in delay slots / of the same opcode: nesting must stay bounded (MIPS delay slots)
+    for cpu, word in (("mips", 0x08000000), ("mips", 0x10000000), ("mips", 0x0c000400)):
+        lines.append("simstep %s 0 - 0:%s" % (cpu, (_word32(cpu, word) * _sc(ctx, 150000, 400000)).hex()))
+    # state that only a history reaches (1802: the counter after 255 DTCs): several hundred steps, three differently filled objects
+    lines.append("simstep 1802 0 d=1 0:%s - 300" % ("6801" * 300))
+    for cpu in sorted(SIMULATORS):
+        regs, mask = FULLREGS[cpu]
+        for k in range(_sc(ctx, 4, 16)):
+            blob = bytes(rng.getrandbits(8) for _ in range(256))
+            rs = ",".join("%s=%x" % (r, rng.choice(EDGE_VALUES) & mask) for r in regs)
+            lines.append("simstep %s 0 %s 0:%s - 64" % (cpu, rs, blob.hex()))
+    # set_reg with a name the simulator does not know must be refused, not crash (and not index a register array
+    # with the digits of the name: r8 / r16 / r32 / x32 / $32 ... one past each register file)
+    for cpu in sorted(SIMULATORS):
+        for name in REG_NAME_PROBES:
+            lines.append("simstep %s 0 %s=1 0:0000000000000000" % (cpu, name))
     return lines
 
 
@@ -170,6 +330,19 @@ def oracle(ctx, orc, focus=None):
             st["same"] += 1
             if "ret=0" in a:
                 st["executed"] += 1
+            m = re.search(r"top=([0-9a-f]+)", a)
+            lim = ADDRESS_SPACE.get(cpu)
+            if m and lim is not None and int(m.group(1), 16) >= lim:
+                st["failed"] += 1
+                orc["failures"].append({"sig": "C15:simstep:%s:write-outside" % cpu, "input": l[:1500],
+                                        "expected": "no non-zero cell at or above 0x%x" % lim, "observed": a[:200],
+                                        "what": "memory outside the simulated address space written", "replay_line": l})
+            continue
+        if a.startswith("exit="):
+            st["failed"] += 1
+            orc["failures"].append({"sig": "C15:simstep:%s:exit-default-break-io" % cpu, "input": l[:1500],
+                                    "expected": "step returns control", "observed": a[:200],
+                                    "what": "the simulator called exit() although no break address was set", "replay_line": l})
             continue
         st["failed"] += 1
         if a.startswith("DIFF"):
@@ -181,10 +354,68 @@ def oracle(ctx, orc, focus=None):
         orc["failures"].append({"sig": sig, "input": l, "expected": "same result twice", "observed": a[:300], "what": what,
                                 "replay_line": l})
     stats["simstep"] = per
+    # modelled simulators, the property itself on the real code: the step returns, twice the same, the state stays inside the
+    # simulator's invariant, nothing outside the address space is written
+    if "simx" in ctx.notes:
+        sx, first = ctx.notes["simx"]
+    else:
+        sx = simx_lines(ctx)[0]
+        first = ctx.impl(sx)
+    second = ctx.impl(sx)
+    sxs = {}
+    for l, a, b in zip(sx, first, second):
+        orc["cases"] += 1
+        cpu = l.split(" ")[1]
+        st = sxs.setdefault(cpu, {"steps": 0, "executed": 0, "illegal": 0})
+        st["steps"] += 1
+        p = gen_simx.parse_answer(a)
+        if p is None and a.startswith("exit=") and ",bio=" in l and a == b:
+            st["break"] = st.get("break", 0) + 1          # the case armed break_io on the written address: exit() is the break outcome
+            continue
+        if p is None:
+            orc["failures"].append({"sig": "C15:simx:%s:crash:%s" % (cpu, _norm_crash(a)), "input": l[:1500],
+                                    "expected": "executed / illegal / break", "observed": a[:300],
+                                    "what": "step from a complete state did not return", "replay_line": l})
+            continue
+        if a != b:
+            orc["failures"].append({"sig": "C15:simx:%s:nondeterministic" % cpu, "input": l[:1500], "expected": a[:300],
+                                    "observed": b[:300], "what": "two runs from the same complete state differ", "replay_line": l})
+            continue
+        ret, state, mem = p
+        st["illegal" if ret == -1 else "executed"] += 1
+        if ret not in (0, -1):
+            orc["failures"].append({"sig": "C15:simx:%s:return-value" % cpu, "input": l[:1500], "expected": "0 or -1",
+                                    "observed": str(ret), "what": "run(-1, 1) return value", "replay_line": l})
+        bad = gen_simx.INVARIANT[cpu](state)
+        if bad:
+            orc["failures"].append({"sig": "C15:simx:%s:invariant:%s" % (cpu, "+".join(bad)), "input": l[:1500],
+                                    "expected": "register ranges kept", "observed": a[:300],
+                                    "what": "the step left the ranges the simulator's arrays rely on", "replay_line": l})
+        given = set(int(c.split(":")[0], 16) for c in l.split(" ")[3].split(",")) if l.split(" ")[3] != "-" else set()
+        outside = sorted(x for x in mem if x not in given and x >= gen_simx.MEM_LIMIT[cpu])
+        if outside:
+            orc["failures"].append({"sig": "C15:simx:%s:write-outside" % cpu, "input": l[:1500],
+                                    "expected": "no write at or above 0x%x" % gen_simx.MEM_LIMIT[cpu],
+                                    "observed": ",".join("%x" % x for x in outside),
+                                    "what": "memory outside the simulated address space written", "replay_line": l})
+    # simulators whose run() clears the static stop_running: a step must not depend on what an earlier run (HLT, Ctrl-C) left in it
+    twins = [l for l in sx if l.split(" ")[1] in STOP_CLEARED and ",stop=1," in l]
+    tw0 = [l.replace(",stop=1,", ",stop=0,") for l in twins]
+    ta, tb = ctx.impl(twins), ctx.impl(tw0)
+    for l, a, b in zip(twins, ta, tb):
+        orc["cases"] += 1
+        if a != b:
+            cpu = l.split(" ")[1]
+            orc["failures"].append({"sig": "C15:simx:%s:stale-stop-running" % cpu, "input": l[:1500], "expected": b[:300],
+                                    "observed": a[:300], "what": "the step depends on the static stop_running left by an earlier run",
+                                    "replay_line": l})
+    stats["simx"] = sxs
+    stats["stop_running_twins"] = len(twins)
     nvlib.log("C15 distinct failure signatures: " + ", ".join(sorted(set(f["sig"] for f in orc["failures"]))))
-    stats["unmodelled_simulators"] = sorted(set(SIMULATORS) - {"msp430"})
+    stats["unmodelled_simulators"] = sorted(set(SIMULATORS) - {"msp430"} - set(SIMX_MODELLED))
     orc["stats"] = stats
-    orc["distinct_nontrivial"] = stats["executed"] + sum(v["executed"] for v in per.values())
+    orc["distinct_nontrivial"] = stats["executed"] + sum(v["executed"] for v in per.values()) + \
+        sum(v["executed"] for v in sxs.values())
     orc["samples"] = [{"line": sl[i][:200], "impl": ans[i][:120]} for i in range(0, len(sl), max(1, len(sl) // 5))][:5]
 
 
